@@ -113,7 +113,8 @@ func checkC09(c *Ctx) {
 		c.Fail("C09.R1", "ingress.HMACAuth.Verify:nonce-check-call", p.Pos(verify.Pos()), "Verify never calls the nonce cache")
 		return
 	}
-	nfn := nonceCall.Call.StaticCallee()
+	nfnOrig := nonceCall.Call.StaticCallee()
+	nfn := p.View(nfnOrig) // the liveness test may sit in a helper of its own
 	// --- tolerance upper bound in Verify ---
 	tolClosed, tolFound := false, false
 	var durVal ssa.Value
@@ -191,6 +192,35 @@ func checkC09(c *Ctx) {
 				liveFound = true
 				liveDesc = rel
 				liveClosed = rel == "now<=exp"
+			}
+		}
+	}
+	// a stored nonce rejects on presence alone (the function prunes expired entries first, or never lets one be
+	// reused): stricter than "present and not expired", so the accept window is covered whatever its bound
+	if !liveFound {
+		for _, b := range nfn.Blocks {
+			for i := range b.Succs {
+				a, ok := edgeAtom(Edge{b, i})
+				if !ok || !isBoolTrue(a.Y) || a.Op != token.EQL {
+					continue
+				}
+				ex, ok := a.X.(*ssa.Extract)
+				if !ok || ex.Index != 1 {
+					continue
+				}
+				lk, ok := ex.Tuple.(*ssa.Lookup)
+				if !ok || !lk.CommaOk {
+					continue
+				}
+				if _, isMap := lk.X.Type().Underlying().(*types.Map); !isMap {
+					continue
+				}
+				if _, isParam := lk.Index.(*ssa.Parameter); !isParam {
+					continue
+				}
+				if blockReturnsConstBool(b.Succs[i], false) {
+					liveFound, liveClosed, liveDesc = true, true, "the nonce is present"
+				}
 			}
 		}
 	}
@@ -353,6 +383,72 @@ func checkC09(c *Ctx) {
 	// every removal from the nonce map, anywhere in the nonce cache's methods, is behind the strictly-after-expiry
 	// edge for the entry removed (a size cap or any other eviction of a live entry re-opens the replay window)
 	nDel := 0
+	// removal by predicate: maps.DeleteFunc(m, func(k, exp) bool { … }) removes exactly the entries for which the
+	// predicate is true, so every value the predicate returns must be "now is strictly after exp" (or false)
+	for _, f := range p.FuncsInPkg("ingress") {
+		top := topLevel(f)
+		if top.Signature.Recv() == nil || namedName(top.Signature.Recv().Type()) != namedName(nfn.Signature.Recv().Type()) {
+			continue
+		}
+		for _, ci := range allCalls(f, func(ci ssa.CallInstruction) bool {
+			g := ci.Common().StaticCallee()
+			if g == nil {
+				return false
+			}
+			o := g.Origin()
+			return o != nil && o.Pkg != nil && o.Pkg.Pkg.Path() == "maps" && o.Name() == "DeleteFunc" && len(ci.Common().Args) == 2
+		}) {
+			for _, pred := range funcValueTargets(ci.Common().Args[1], 0) {
+				pv := p.View(pred)
+				if len(pv.Params) != 2 {
+					continue
+				}
+				nDel++
+				expParam := pv.Params[1]
+				bad := ""
+				for _, r := range returnsOf(pv) {
+					if len(r.Results) != 1 {
+						continue
+					}
+					v := r.Results[0]
+					neg := false
+					for {
+						if u, ok := v.(*ssa.UnOp); ok && u.Op == token.NOT {
+							v, neg = u.X, !neg
+							continue
+						}
+						break
+					}
+					if cst, ok := v.(*ssa.Const); ok && cst.Value != nil {
+						if (cst.Value.String() == "true") != neg {
+							bad = "the predicate can remove an entry unconditionally"
+						}
+						continue
+					}
+					call, ok := v.(*ssa.Call)
+					if !ok || len(call.Call.Args) != 2 {
+						bad = "the predicate returns " + shortVal(v) + ", which is not a comparison of the clock with the entry's expiry"
+						continue
+					}
+					strict := false
+					switch {
+					case calleeIs(call, "time", "Time", "After") && stripConv(call.Call.Args[1]) == ssa.Value(expParam):
+						strict = !neg // now.After(exp)
+					case calleeIs(call, "time", "Time", "Before") && stripConv(call.Call.Args[0]) == ssa.Value(expParam):
+						strict = !neg // exp.Before(now)
+					default:
+						strict = false
+					}
+					if !strict {
+						bad = "the predicate removes an entry when not (now strictly after its expiry)"
+					}
+				}
+				c.Check(bad == "", "C09.R1", fmt.Sprintf("ingress.%s:removal#%d only strictly after that entry's expiry", FuncName(topLevel(f)), nDel), p.InstrPos(ci),
+					"maps.DeleteFunc with a predicate that is true only when now.After(expiry of the entry)",
+					"an entry can be removed from the nonce cache while it is still live ("+bad+"): a captured request is accepted again within the tolerance window")
+			}
+		}
+	}
 	for _, f := range p.FuncsInPkg("ingress") {
 		if f.Signature.Recv() == nil || namedName(f.Signature.Recv().Type()) != namedName(nfn.Signature.Recv().Type()) {
 			continue
@@ -423,6 +519,7 @@ func checkC09(c *Ctx) {
 	c.Check(expOK, "C09.R1", "ingress.HMACAuth.Verify:expiry=ts+tolerance", p.InstrPos(nonceCall), "expiry passed to the cache = time.Unix(ts).Add(Tolerance)", "nonce expiry is not signed timestamp + tolerance")
 
 	// ---- R3 ----
+	nfn = nfnOrig
 	recvT := namedName(nfn.Signature.Recv().Type())
 	lm := p.lockAnalysis("ingress", recvT, p.mutexField("ingress", recvT))
 	nAcc, bad := 0, false
